@@ -254,3 +254,108 @@ func init() {
 		return prevParse(fr, args)
 	}
 }
+
+// (*encoding/json.Decoder).Decode over a reader that holds a CONCRETE text
+// (*bytes.Reader, *bytes.Buffer, *strings.Reader - what json.NewDecoder is
+// handed for a body that was read before): the rest of the text is parsed with
+// the engine's JSON reader and stored with encoding/json's typing (numbers into
+// an interface{} become float64); with DisallowUnknownFields an unknown struct
+// field is an error of the call. NewDecoder and the option setters run from
+// their real source. A Decoder is used for ONE document here; streams of
+// several values are not modelled.
+func init() {
+	fieldIndex := func(st *types.Struct, name string) int {
+		for i := 0; i < st.NumFields(); i++ {
+			if st.Field(i).Name() == name {
+				return i
+			}
+		}
+		return -1
+	}
+	externals["(*encoding/json.Decoder).Decode"] = func(fr *frame, args []value) (res value) {
+		recvT := fr.fn.Signature.Recv().Type().(*types.Pointer).Elem().Underlying().(*types.Struct)
+		dec := (*args[0].(*value)).(structure)
+		ri, di := fieldIndex(recvT, "r"), fieldIndex(recvT, "d")
+		if ri < 0 || di < 0 {
+			panic(engineUnsupported{"encoding/json.Decoder layout"})
+		}
+		dsT := recvT.Field(di).Type().Underlying().(*types.Struct)
+		disallow := false
+		if k := fieldIndex(dsT, "disallowUnknownFields"); k >= 0 {
+			disallow, _ = dec[di].(structure)[k].(bool)
+		}
+		rd, _ := dec[ri].(iface)
+		var text string
+		consumed := false
+		if p, ok := rd.v.(*value); ok && p != nil && rd.t != nil {
+			if st, ok := (*p).(structure); ok {
+				switch rd.t.String() {
+				case "*bytes.Reader": // s []byte, i int64, prevRune int
+					if b, ok := st[0].([]value); ok {
+						off := asInt64(st[1])
+						text, consumed = goString(bytesToString(b[off:])), true
+						st[1] = int64(len(b))
+					}
+				case "*bytes.Buffer": // buf []byte, off int, lastRead
+					if b, ok := st[0].([]value); ok {
+						off := int(asInt64(st[1]))
+						text, consumed = goString(bytesToString(b[off:])), true
+						st[1] = len(b)
+					}
+				case "*strings.Reader": // s string, i int64, prevRune int
+					if s, ok := st[0].(string); ok {
+						off := asInt64(st[1])
+						text, consumed = s[off:], true
+						st[1] = int64(len(s))
+					}
+				}
+			}
+		}
+		if !consumed {
+			panic(engineUnsupported{fmt.Sprintf("json.Decoder over %v (only readers of concrete texts are modelled)", rd.t)})
+		}
+		if len(text) == 0 {
+			if g := fr.i.globals[fr.i.prog.ImportedPackage("io").Var("EOF")]; g != nil {
+				return *g
+			}
+			return newErrorString(fr, "EOF")
+		}
+		tree, err := parseConcreteJSON(ex(fr), text)
+		if err != nil {
+			return newErrorString(fr, "json: "+err.Error())
+		}
+		out := args[1].(iface)
+		if out.t == nil {
+			return newErrorString(fr, "json: Unmarshal(nil)")
+		}
+		pt, isPtr := out.t.Underlying().(*types.Pointer)
+		if !isPtr || out.v.(*value) == nil {
+			return newErrorString(fr, "json: Unmarshal(non-pointer)")
+		}
+		defer func() {
+			if r := recover(); r != nil {
+				if te, ok := r.(jsonTypeError); ok {
+					res = newErrorString(fr, "json: "+te.msg)
+					return
+				}
+				panic(r)
+			}
+		}()
+		if disallow {
+			var unknown []string
+			jsonUnknownFields(pt.Elem(), tree, &unknown)
+			if len(unknown) > 0 {
+				return newErrorString(fr, fmt.Sprintf("json: unknown field %q", unknown[0]))
+			}
+		}
+		if _, isNull := tree.(jnull); !isNull {
+			e := ex(fr)
+			saved := e.jsonStdNumbers
+			e.jsonStdNumbers = true
+			defer func() { e.jsonStdNumbers = saved }()
+			p := out.v.(*value)
+			*p = fromJSONTree(fr, pt.Elem(), copyTree(tree))
+		}
+		return iface{}
+	}
+}
